@@ -13,7 +13,11 @@ type Hull<const D: usize> = ConvexHull<FastKernel<f64>, tri::VData, tri::CData, 
 
 /// four guarded entry points → "stale" | "answer" | "err"
 fn hull_queries<const D: usize>(h: &Hull<D>, w: &World<D>, p: &[f64; D]) -> Vec<String> {
-    let tri = w.dt.as_triangulation();
+    hull_queries_dt(h, &w.dt, p)
+}
+
+fn hull_queries_dt<const D: usize>(h: &Hull<D>, dt: &tri::DtF<D>, p: &[f64; D]) -> Vec<String> {
+    let tri = dt.as_triangulation();
     let pt = Point::new(*p);
     let cls = |s: String| -> String {
         if s.contains("Stale") { "stale".into() } else if s == "ok" { "answer".into() } else { "err".into() }
@@ -183,7 +187,62 @@ fn reboot<const D: usize>(id: &str, rng: &mut Rng, out: &mut Out) {
     out.end();
 }
 
+/// cells removed through the public Edit API (`repair_local_facet_issues` with an issue record that
+/// names one cell three times keeps two entries and removes the third, i.e. that cell; and
+/// `Tds::remove_cells_by_keys` on a clone reached through serde is not needed: the Edit API is
+/// public): EVERY single cell of a small triangulation in turn, each on its own clone, so cells
+/// that no vertex names as its incident cell are covered as well as those that need the
+/// incident-cell repair.  The hull of the unmodified triangulation must turn stale.
+fn cell_removal<const D: usize>(id: &str, rng: &mut Rng, out: &mut Out) {
+    use delaunay::core::collections::{FacetIssuesMap, SmallBuffer};
+    let np = D + 3 + rng.below(match D { 2 => 8, 3 => 5, _ => 3 }) as usize;
+    let ps = gens::point_set(rng, D, np);
+    let Some(mut w): Option<World<D>> = hist::start_built::<D>(&ps.pts, 1, rng) else { return };
+    if w.dt.number_of_cells() < 2 { return; }
+    let Ok(hull) = Hull::<D>::from_triangulation(w.dt.as_triangulation()) else { return };
+    out.case(id, "hull", &format!("D={D} fam=cellrm"));
+    let mut lines: Vec<String> = Vec::new();
+    for fh in hull.facets() {
+        let fi = fh.facet_index() as usize;
+        if let Some(c) = w.dt.tds().get_cell(fh.cell_key()) {
+            let vks: Vec<_> = c.vertices().iter().enumerate().filter(|(i, _)| *i != fi).map(|(_, k)| *k).collect();
+            let ids = w.vk_ids(&vks);
+            lines.push(format!("hf {}", ids.iter().map(|x| x.to_string()).collect::<Vec<_>>().join(" ")));
+        }
+    }
+    let probe = { let mut p = [0.0f64; D]; p[0] = 0.25; p };
+    let cks: Vec<_> = w.dt.tds().cell_keys().collect();
+    for (k, ck) in cks.iter().enumerate().take(40) {
+        // clones share the generation counter (Arc): the hull is created from the clone itself,
+        // after whatever the previous victims did to the counter
+        let mut dt = w.dt.clone();
+        let Ok(hull) = Hull::<D>::from_triangulation(dt.as_triangulation()) else { continue };
+        let before = fingerprint(dt.tds());
+        let g0 = dt.tds().generation();
+        let mut issues = FacetIssuesMap::default();
+        let mut entry: SmallBuffer<(delaunay::core::triangulation_data_structure::CellKey, u8), 4> = SmallBuffer::new();
+        for _ in 0..3 { entry.push((*ck, 0)); }
+        issues.insert(0xC11_u64 + k as u64, entry);
+        let r = catch(|| dt.as_triangulation_mut().repair_local_facet_issues(&issues).is_ok());
+        if r.is_err() { continue; }
+        let after = fingerprint(dt.tds());
+        let g1 = dt.tds().generation();
+        let qs = hull_queries_dt(&hull, &dt, &probe);
+        lines.push(format!("gen remove_cell {} {g0} {g1} {}", (before != after) as u8, qs.join(" ")));
+    }
+    let mut ids: Ids = std::mem::take(&mut w.ids);
+    tri::export(&w.dt, &mut ids, out);
+    w.ids = ids;
+    for l in lines { out.line(&l); }
+    out.end();
+}
+
 pub fn run(cfg: &Cfg, rng: &mut Rng, out: &mut Out) {
+    for i in 0..6 {
+        cell_removal::<2>(&format!("cr2_{i}"), rng, out);
+        cell_removal::<3>(&format!("cr3_{i}"), rng, out);
+        if i < 3 { cell_removal::<4>(&format!("cr4_{i}"), rng, out); }
+    }
     for i in 0..4 {
         reboot::<2>(&format!("rb2_{i}"), rng, out);
         reboot::<3>(&format!("rb3_{i}"), rng, out);
